@@ -403,6 +403,10 @@ def expressions(ctx, model_ok, tmp):
     corpus = [("detector", ("in", False, ("sub", ("col", "detector"), ("lit", 5)), (("r", (-3, 3, 2)),))),   # C05-a
               ("detector", ("isnull", False, ("col", "detector.purpose"))),                                   # C05-c (legacy)
               ("detector", ("in", False, ("sub", ("col", "detector"), ("lit", 9)), (("r", (-8, 0, 3)),))),
+              # C05-e: NOT over a disjunction that contains IN lists with ranges: the conjunctive normal form explodes
+              ("detector", ("not", ("or", ("and", ("in", False, ("col", "detector"), (("r", (-3, 0, 5)), ("r", (7, 13, 2)))),
+                                              ("in", False, ("col", "detector.raft"), (("v", "SCIENCE"), ("v", "d10"), ("v", "SCIENCE")))),
+                                    ("not", ("in", False, ("col", "detector"), (("r", (9, 11, 1)), ("r", (5, 9, 1)), ("v", -2))))))),
               ("exposure", ("not", ("cmp", "=", ("col", "instrument"), ("lit", "I")))),
               ("exposure", ("not", ("flag", "exposure.can_see_sky"))),
               ("exposure", ("or", ("cmp", "<", ("col", "exposure.timespan.begin"), ("tlit", T0_NS + 250 * 10**6)),
@@ -454,8 +458,9 @@ def expressions(ctx, model_ok, tmp):
             if got is None:
                 continue
             if got != expect:
+                too_large = isinstance(got, str) and "Expression tree is too large" in got
                 viol(f"Butler.{api}(where={s_new!r}, bind={rn.bind}) selects {tname}s {sorted(got) if isinstance(got, set) else got}, the documented meaning "
-                     f"selects {sorted(expect)}", f"c05:new:{api}:{s_new}",
+                     f"selects {sorted(expect)}", "cnf-explosion-expression-tree-too-large" if too_large else f"c05:new:{api}:{s_new}",
                      {"kind": "expression", "where": s_new, "bind": {k: v for k, v in rn.bind.items()}, "api": api, "target": tname})
                 break
         # legacy: whenever it accepts the expression it must return the same rows.
